@@ -547,7 +547,12 @@ def expand_dict(expr: ast.expr, module: Module, env: dict[str, object] | None = 
                 try:
                     key = _fold(k, env)
                 except ValueError:
-                    raise AnalysisError(f"registry key is not statically known: {src(k)} ({module.rel()}:{k.lineno})")
+                    # a key that is a module-level constant (DATA_FILE_NAME = "data.json")
+                    cv = module.assigns.get(k.id) if isinstance(k, ast.Name) else None
+                    if isinstance(cv, ast.Constant) and isinstance(cv.value, (str, int)):
+                        key = cv.value
+                    else:
+                        raise AnalysisError(f"registry key is not statically known: {src(k)} ({module.rel()}:{k.lineno})")
                 out.append(RegistryEntry(key, v, module, dict(env), k))
         return out
     if isinstance(expr, ast.DictComp):
